@@ -83,6 +83,9 @@ def gen_case(rng, idx):
     # must recognise the shape and instrument the async block (only by-value parameters: no lifetimes in the boxed future's type;
     # no ret / err, so that the pair still compiles if the shape is NOT recognised and the difference shows in the log)
     boxed = is_async and not generic and not any(('&' in (p.decl or '')) for p in ps) and rng.random() < 0.4
+    # an `async fn` that RETURNS a future (its tail expression is `Box::pin(async move { … })`): an ordinary async fn to the
+    # attribute — one span around the async fn's own body; the returned future is the caller's business and runs outside it
+    retfut = is_async and not boxed and not generic and not any(('&' in (p.decl or '')) for p in ps) and rng.random() < 0.2
     # ---- return shape
     shape = rng.choice(['unit', 'value', 'ok', 'err', 'question', 'panic', 'early', 'impl'] if not is_async else ['unit', 'value', 'ok', 'err', 'question', 'panic', 'early'])
     base = nums[0].name if nums else None
@@ -92,7 +95,7 @@ def gen_case(rng, idx):
     tail = {'unit': '', 'value': valexpr, 'ok': 'Ok(%s)' % valexpr, 'err': 'Err(MyErr(%d))' % (val % 97), 'question': 'let v = helper(%s)?; Ok(v + 1)' % valexpr,
             'panic': 'panic!("boom %d")' % (val % 13), 'early': 'if %s > 0 { return 7; } %s' % (valexpr, valexpr), 'impl': valexpr}[shape]
     ret = err = None
-    if shape != 'panic' and rng.random() < 0.5 and not boxed:
+    if shape != 'panic' and rng.random() < 0.5 and not boxed and not retfut:
         mode = rng.choice(['', 'Display', 'Debug']) if shape in ('value', 'ok', 'question', 'early', 'err') else rng.choice(['', 'Debug'])
         if shape == 'impl': mode = rng.choice(['', 'Debug'])
         if shape == 'unit': mode = rng.choice(['', 'Debug'])
@@ -100,7 +103,7 @@ def gen_case(rng, idx):
         inner = ', '.join(x for x in [mode, ('level = "%s"' % lv) if lv else ''] if x)
         attrs.append('ret(%s)' % inner if inner else 'ret'); ret = (mode or 'Debug', lv)
     need_err = ret is not None and ret[0] == 'Display' and shape in ('ok', 'err', 'question')     # Display of a whole Result does not exist
-    if shape in ('ok', 'err', 'question') and (need_err or rng.random() < 0.6) and not boxed:
+    if shape in ('ok', 'err', 'question') and (need_err or rng.random() < 0.6) and not boxed and not retfut:
         mode = rng.choice(['', 'Display', 'Debug']); lv = rng.choice([None, None, 'info'])
         inner = ', '.join(x for x in [mode, ('level = "%s"' % lv) if lv else ''] if x)
         attrs.append('err(%s)' % inner if inner else 'err'); err = (mode or 'Display', lv)
@@ -127,7 +130,11 @@ def gen_case(rng, idx):
     args = ', '.join(p.arg for p in ps)
     call_i = 'f_inst(%s)' % args; call_p = 'f_plain(%s)' % args
     if is_async: call_i = 'drive(%s)' % call_i; call_p = 'drive(%s)' % call_p
+    if retfut:
+        body[-1] = 'Box::pin(async move { %s })' % tail
+        call_i = 'drive_returned(%s)' % call_i; call_p = 'drive_returned(%s)' % call_p
     body_src = '\n        '.join(body)
+    if retfut: ret_ty = 'std::pin::Pin<Box<dyn std::future::Future<Output = %s>>>' % ret_ty
     if boxed:
         kw = 'fn'
         body_src = 'fx("pre");\n        Box::pin(async move {\n        ' + body_src + '\n        })'
